@@ -5,7 +5,7 @@ from .. import spec
 from ..absint import Explorer, UNKNOWN
 from ..astutil import norm, const, NO, compare, tail, names
 from ..index import AnalysisError, walk_own
-from .common import (site, key, calls_to, method_calls, nodes_with, guard_check, stores_to_name, cfg_attr, sample_polarity)
+from .common import (site, key, calls_to, method_calls, nodes_with, guard_check, stores_to_name, cfg_attr, sample_polarity, rname)
 
 ARB = "gunicorn.arbiter.Arbiter"
 UNDECIDED = ["that no connection is refused during the upgrade", "behaviour of two live masters under load", "HUP sent to the *new* master before promotion (pid-file name without .2; noted in DESIGN 6)"]
@@ -43,9 +43,18 @@ def r1(ctx):
     g = f.cfg
     forks = [n for c in calls_to(repo, f, "os.fork") for n in nodes_with(f, c)]
     ctx.need(forks, "C14.R1: reexec does not fork")
-    for attr, why in (("reexec_pid", "a second USR2 while an upgrade is pending starts a third master"), ("master_pid", "USR2 on a not-yet-promoted new master starts a chain of masters")):
-        p, hits = guard_check(f, forks, _pid_recog(f, attr), kills=[s for s in g.stmts(ast.Assign) if any(isinstance(t, ast.Attribute) and t.attr == attr for t in s.ast.targets) and s not in forks])
-        ctx.check("C14.R1", p is None, key(f, "fork-guard|" + attr), site(f, forks[0]), "os.fork() is reachable with %s != 0: %s" % (attr, why), "fork only when %s == 0" % attr, path=p and g.fmt_path(p))
+    # evaluated from the entry: a new master is forked exactly when no upgrade is pending and this master is not itself an
+    # un-promoted new master
+    why = {"reexec_pid": "a second USR2 while an upgrade is pending starts a third master", "master_pid": "USR2 on a not-yet-promoted new master starts a chain of masters"}
+    for rp in (0, 4242):
+        for mp_ in (0, 4141):
+            outs = Explorer(f).run(g.entry, {"self.reexec_pid": rp, "self.master_pid": mp_}, watch={n.id: "fork" for n in forks}, stop=lambda n: n in forks)
+            got = set(o.kind == "stop" for o in outs)
+            want = rp == 0 and mp_ == 0
+            attr = "reexec_pid" if rp else "master_pid"
+            ctx.check("C14.R1", got == {want}, key(f, "fork-guard|%s|%s" % (rp, mp_)), site(f, forks[0]),
+                      ("with reexec_pid=%s and master_pid=%s os.fork() is reached: %s" % (rp, mp_, why[attr])) if not want else "with no upgrade pending reexec does not fork a new master",
+                      "fork iff reexec_pid == 0 and master_pid == 0")
     # the fork result is remembered, parent returns, child execs
     st = [s for s in g.stmts(ast.Assign) if any(tail(t) == "reexec_pid" for t in s.ast.targets) and s in forks]
     ctx.check("C14.R1", bool(st), key(f, "remember-child"), site(f), "the pid of the new master is not stored in reexec_pid", "reexec_pid = os.fork()")
@@ -87,11 +96,11 @@ def _env_reads(repo):
             continue
         for n in walk_own(f.node):
             k = None
-            if isinstance(n, ast.Subscript) and norm(n.value) == "os.environ":
+            if isinstance(n, ast.Subscript) and rname(f, n.value) == "os.environ":
                 k = const(n.slice, NO)
-            elif isinstance(n, ast.Call) and isinstance(n.func, ast.Attribute) and norm(n.func.value) == "os.environ" and n.func.attr in ("get", "pop") and n.args:
+            elif isinstance(n, ast.Call) and isinstance(n.func, ast.Attribute) and rname(f, n.func.value) == "os.environ" and n.func.attr in ("get", "pop") and n.args:
                 k = const(n.args[0], NO)
-            elif isinstance(n, ast.Compare) and len(n.ops) == 1 and isinstance(n.ops[0], (ast.In, ast.NotIn)) and norm(n.comparators[0]) == "os.environ":
+            elif isinstance(n, ast.Compare) and len(n.ops) == 1 and isinstance(n.ops[0], (ast.In, ast.NotIn)) and rname(f, n.comparators[0]) == "os.environ":
                 k = const(n.left, NO)
             if isinstance(k, str):
                 out.append((f, k, n))
@@ -102,8 +111,6 @@ def r2(ctx):
     repo = ctx.repo
     f = ctx.fn(repo.func(ARB + ".reexec"))
     g = f.cfg
-    written = _env_keys_written(f)
-    ctx.check("C14.R2", set(written) == set(spec.UPGRADE_ENV), key(f, "keys-written"), site(f), "reexec writes %s, the hand-off protocol is %s" % (sorted(written), sorted(spec.UPGRADE_ENV)), "writes %s" % sorted(written))
     reads = _env_reads(repo)
     by_key = {}
     for ff, k, n in reads:
@@ -117,42 +124,82 @@ def r2(ctx):
     for k in by_key:
         if k not in spec.UPGRADE_ENV and any(k.startswith(p) for p in ("GUNICORN_P", "GUNICORN_F", "LISTEN_")):
             ctx.bad("C14.R2", "unknown-key|" + k, "gunicorn: %s" % by_key[k][0], "environment key %s is read but never written by reexec" % k)
-    # which keys for which mode
-    ex0 = Explorer(f)
+    # the environment handed to exec -- evaluated from the entry of reexec for both hand-off modes: the original
+    # environment plus exactly the protocol keys of the mode, GUNICORN_PID = the *old* master's pid (read before the fork),
+    # LISTEN_PID = the pid of the process that execs (read after it), LISTEN_FDS = number of listeners, GUNICORN_FD = their
+    # descriptors in the spelling start() parses
     forks = [n for c in calls_to(repo, f, "os.fork") for n in nodes_with(f, c)]
-    ex_nodes = [n for c in calls_to(repo, f, "os.exec*") for n in nodes_with(f, c)]
-    for sysd in (False, True):
-        ex = Explorer(f)
-        outs = ex.run(forks[0], {"self.systemd": sysd, "self.reexec_pid": 0}, watch=dict((s.id, k) for k, s in written.items()), stop=lambda n: n in ex_nodes)
-        # child branch: reexec_pid assigned from fork -> UNKNOWN -> both; keep paths reaching exec
-        got = set()
-        for o in outs:
-            if o.kind == "stop":
-                got.add(tuple(sorted(e for e in o.events if isinstance(e, str))))
-        want = ("GUNICORN_PID", "LISTEN_FDS", "LISTEN_PID") if sysd else ("GUNICORN_FD", "GUNICORN_PID")
-        ctx.check("C14.R2", got == {want}, key(f, "mode|systemd=%s" % sysd), site(f, text="systemd=%s" % sysd), "with systemd=%s the child environment gets %s, required %s" % (sysd, sorted(got), want), "%s" % (want,))
-    # values
-    vals = dict((k, norm(s.ast.value)) for k, s in written.items())
-    ctx.check("C14.R2", "master_pid" in vals.get("GUNICORN_PID", "") or "getpid" in vals.get("GUNICORN_PID", ""), key(f, "value|GUNICORN_PID"), site(f), "GUNICORN_PID is not the old master's pid", "GUNICORN_PID = str(master pid)")
-    mp = [s for s in g.stmts(ast.Assign) if isinstance(s.ast.targets[0], ast.Name) and s.ast.targets[0].id in names(written["GUNICORN_PID"].ast.value)] if "GUNICORN_PID" in written else []
-    ctx.check("C14.R2", bool(mp) and all(any(g.dominates(m, fk, follow_exc=False) for m in mp) for fk in forks) and all("getpid" in norm(m.ast.value) for m in mp), key(f, "pid-before-fork"), site(f),
-              "the old master's pid is not captured before the fork (the child would record its own pid as its parent)", "master_pid = os.getpid() before fork")
-    ctx.check("C14.R2", "getpid" in vals.get("LISTEN_PID", ""), key(f, "value|LISTEN_PID"), site(f), "LISTEN_PID is not the pid of the process that will exec", "LISTEN_PID = str(os.getpid())")
-    ctx.check("C14.R2", "len(" in vals.get("LISTEN_FDS", "") and "LISTENERS" in vals.get("LISTEN_FDS", ""), key(f, "value|LISTEN_FDS"), site(f), "LISTEN_FDS is not the number of listeners", "LISTEN_FDS = str(len(LISTENERS))")
-    # separator agreement
-    w = written.get("GUNICORN_FD")
-    sep_w = None
-    if w is not None:
-        for c in ast.walk(w.ast.value):
-            if isinstance(c, ast.Call) and isinstance(c.func, ast.Attribute) and c.func.attr == "join":
-                sep_w = const(c.func.value, NO)
+    ex_calls = calls_to(repo, f, "os.exec*")
+    ex_nodes = [n for c in ex_calls for n in nodes_with(f, c)]
+    ctx.need(forks and ex_nodes, "C14.R2: reexec lacks fork or exec")
+    after_fork = set()
+    for c in calls_to(repo, f, "os.getpid"):
+        if all(any(g.dominates(fk, n, follow_exc=False) for fk in forks) for n in nodes_with(f, c)):
+            after_fork.add(id(c))
+
+    def atom_of(e):
+        if isinstance(e, ast.Call) and repo.call_target(f.module, f, e) == "os.getpid":
+            return "CHILD_PID" if id(e) in after_fork else "MASTER_PID"
+        return None
     fs = ctx.fn(repo.func(ARB + ".start"))
-    sep_r = None
-    for c in walk_own(fs.node):
-        if isinstance(c, ast.Call) and isinstance(c.func, ast.Attribute) and c.func.attr == "split" and "GUNICORN_FD" in norm(c.func.value) and c.args:
-            sep_r = const(c.args[0], NO)
-    ctx.check("C14.R2", isinstance(sep_w, str) and sep_w == sep_r, key(f, "fd-separator"), site(f), "listener fds are joined with %r but parsed with %r" % (sep_w, sep_r), "same separator %r" % (sep_w,))
-    ctx.check("C14.R2", w is not None and "fileno()" in norm(w.ast.value) and "LISTENERS" in norm(w.ast.value), key(f, "value|GUNICORN_FD"), site(f), "GUNICORN_FD does not list the listeners' file descriptors", "fds of LISTENERS")
+
+    def parsed_by_start(value):
+        """what start() hands to create_sockets as inherited descriptors when GUNICORN_FD holds `value` (evaluated)"""
+        cs_ = calls_to(repo, fs, "gunicorn.sock.create_sockets")
+        if not cs_ or len(cs_[0].args) < 3:
+            return None
+
+        def at(e):
+            if isinstance(e, ast.Call) and isinstance(e.func, ast.Attribute) and e.func.attr in ("get", "pop") and rname(fs, e.func.value) == "os.environ" and e.args and isinstance(const(e.args[0], NO), str):
+                return "ENV:" + const(e.args[0])
+            if isinstance(e, ast.Subscript) and rname(fs, e.value) == "os.environ" and isinstance(const(e.slice, NO), str):
+                return "ENV:" + const(e.slice)
+            if isinstance(e, ast.Call) and (repo.call_target(fs.module, fs, e) or "").endswith("systemd.listen_fds"):
+                return "SD_FDS"
+            return None
+
+        def probe(ex, env_):
+            v = ex.ev(cs_[0].args[2], env_)
+            return tuple(v) if isinstance(v, (tuple, list)) else v
+        env = {"ENV:GUNICORN_FD": value, "ENV:GUNICORN_PID": "1000", "SD_FDS": 0, "self.LISTENERS": (), "self.master_pid": 1000}
+        outs = Explorer(fs, atom_of=at, max_states=200000).run(fs.cfg.entry, env, probes={n.id: ("fds", probe) for n in nodes_with(fs, cs_[0])})
+        return set(v for o in outs for nm, v in o.events if nm == "fds")
+    sep_r = ","
+    rows = []
+    for sysd in (False, True):
+        from ..absint import SpecObj
+        listeners = (SpecObj(fileno=lambda: 7), SpecObj(fileno=lambda: 9), SpecObj(fileno=lambda: 12))
+        env = {"self.systemd": sysd, "self.reexec_pid": 0, "self.master_pid": 0, "self.cfg.env_orig": {"PATH": "/bin", "LANG": "C"}, "self.LISTENERS": listeners,
+               "MASTER_PID": 1000, "CHILD_PID": 2000}
+
+        def probe(ex, env_, c=ex_calls[0]):
+            v = ex.ev(c.args[-1], env_)
+            if not isinstance(v, dict):
+                return UNKNOWN
+            return tuple(sorted((k, v[k] if isinstance(v[k], str) else "?") for k in v))
+        outs = Explorer(f, atom_of=atom_of).run(g.entry, env, probes={n.id: ("environ", probe) for n in ex_nodes})
+        got = set(v for o in outs for nm, v in o.events if nm == "environ")
+        want = {"PATH": "/bin", "LANG": "C", "GUNICORN_PID": "1000"}
+        if sysd:
+            want.update({"LISTEN_PID": "2000", "LISTEN_FDS": "3"})
+        else:
+            want["GUNICORN_FD"] = (sep_r if isinstance(sep_r, str) else ",").join(["7", "9", "12"])
+        wantt = tuple(sorted(want.items()))
+        rows.append({"systemd": sysd, "environment handed to exec": [dict(x) if isinstance(x, tuple) else x for x in got], "required": want})
+        if not sysd:
+            # writer/reader agreement: the string reexec writes is parsed by start() into the same descriptors
+            fdv = set(dict(x).get("GUNICORN_FD") for x in got if isinstance(x, tuple))
+            for v in fdv:
+                back = parsed_by_start(v) if isinstance(v, str) else None
+                ctx.check("C14.R2", back == {(7, 9, 12)}, key(f, "fd-round-trip"), site(f), "reexec hands listeners on fds 7, 9, 12 over as GUNICORN_FD=%r, which start() parses into %s" % (v, sorted(map(str, back or []))),
+                          "GUNICORN_FD written == parsed")
+                if back == {(7, 9, 12)} and isinstance(v, str):
+                    want["GUNICORN_FD"] = v
+                    wantt = tuple(sorted(want.items()))
+        ctx.check("C14.R2", got == {wantt}, key(f, "mode|systemd=%s" % sysd), site(f, text="systemd=%s" % sysd),
+                  "with systemd=%s, old master pid 1000, child pid 2000 and listeners on fds 7, 9, 12 the new master's environment is %s, required %s (original environment + the hand-off keys of this mode; "
+                  "GUNICORN_PID is the old master's pid, LISTEN_PID the exec'ing process, fds in the spelling start() parses)" % (sysd, [dict(x) if isinstance(x, tuple) else x for x in got], want), "%s" % (want,))
+    ctx.table("C14.R2 environment handed to the new master", rows)
     # the new master adopts them: start() -> create_sockets(cfg, log, fds) under master_pid
     cs = calls_to(repo, fs, "gunicorn.sock.create_sockets")
     ctx.check("C14.R2", bool(cs) and len(cs[0].args) >= 3, key(fs, "adopt-fds"), site(fs), "start() does not pass the inherited fds to create_sockets", "create_sockets(cfg, log, fds)")
